@@ -37,6 +37,9 @@ MAIN_VARIANTS = [
 	'def main_f(a: int) -> int:\n\tb = a + 1\n\treturn b * 2\n',
 	'class M:\n\tn: int\n\n\tdef __init__(self, n: int) -> None:\n\t\tself.n = n\n\n\tdef get(self) -> int:\n\t\treturn self.n\n\n\ndef main_f(a: int) -> int:\n\tm = M(a)\n\treturn m.get()\n',
 	'from proj.leaf import base_val, Item\n\n\ndef main_f() -> int:\n\tv = base_val()\n\tit = Item(v)\n\tw = it.value\n\treturn it.count\n',
+	# the same names as in the variants above, with other types
+	'class M:\n\tn: str\n\n\tdef __init__(self, n: str) -> None:\n\t\tself.n = n\n\n\tdef get(self) -> str:\n\t\treturn self.n\n\n\ndef main_f(a: str) -> str:\n\tm = M(a)\n\tg = m.get()\n\tk = m.n\n\treturn g\n',
+	'class M:\n\tn: float\n\n\tdef __init__(self, n: float) -> None:\n\t\tself.n = n\n\n\tdef get(self) -> list[float]:\n\t\treturn [self.n]\n\n\ndef main_f(a: float) -> float:\n\tm = M(a)\n\tg = m.get()\n\tk = m.n\n\treturn k\n',
 	'def main_f(a: int) -> int:\n\txs: list[int] = [a, a]\n\tds: dict[str, int] = {\'k\': a}\n\treturn len(xs) + len(ds)\n',
 ]
 MAIN_BAD = [
@@ -316,6 +319,40 @@ def cli_determinism(acc: Acc, r: random.Random, workdir: str, seed: int) -> None
 			return
 
 
+def cli_target_orders(acc: Acc, r: random.Random, workdir: str) -> None:
+	"""Every order in which the modules of a dependency chain can be listed as targets: each run succeeds and writes the same files."""
+	from vf.gen.histproj import HistProject
+	hp = HistProject('chain')
+	k, v = hp.random_edit(r)
+	hp.variants[k] = v
+	chain = [hp.names[x].replace('.', '/') + '.py' for x in ('l', 'm', 'r')]
+	other = hp.names['u'].replace('.', '/') + '.py'
+	base = None
+	for i, perm in enumerate(itertools.permutations(chain)):
+		order = list(perm) + [other] if i % 2 == 0 else [other] + list(perm)
+		root = os.path.join(workdir, f'cliorder{i}')
+		cli.write_sources(root, hp.sources())
+		cli.write_config(root, ['proj/**/*.py'])
+		args = ['-f']
+		for f in order:
+			args += ['-i', f]
+		p = cli.run_cli(root, args, hashseed='0')
+		case = {'kind': 'cli-orders', 'variants': hp.variants, 'order': order}
+		acc.see('cli_runs', 'target-order-permutation')
+		outs = cli.read_outputs(root)
+		shutil.rmtree(root, ignore_errors=True)
+		acc.case(sig_of(('cli-order', tuple(order))), {'order': order} if i == 1 else None, True)
+		if cli.failed(p):
+			acc.violation('cli-run-fails', f'order={order}: {(p.stdout + p.stderr)[-400:]}', case)
+			return
+		if base is None:
+			base = outs
+		elif outs != base:
+			kk = next(x for x in sorted(set(outs) | set(base)) if outs.get(x) != base.get(x))
+			acc.violation('cli-output-depends-on-seed-or-order', f'{kk} differs between target orders (order={order})', case)
+			return
+
+
 def classify(v: dict) -> str | None:
 	return None
 
@@ -323,6 +360,12 @@ def classify(v: dict) -> str | None:
 def shard(ctx: Ctx, acc: Acc) -> None:
 	workdir = tempfile.mkdtemp(prefix='vf-c04-')
 	try:
+		if ctx.shard == 2 % ctx.nshards:
+			try:
+				cli_target_orders(acc, ctx.rng('cli-orders'), workdir)
+			except Exception as e:  # noqa
+				acc.extra.setdefault('harness_errors', []).append(fmt_exc(e))
+				return
 		if ctx.shard in (0, 1) or not ctx.quick:
 			try:
 				cli_determinism(acc, ctx.rng('cli', ctx.shard), workdir, ctx.seed + ctx.shard)
@@ -348,7 +391,9 @@ def shard(ctx: Ctx, acc: Acc) -> None:
 def replay(ctx: Ctx, case: dict, acc: Acc) -> None:
 	workdir = tempfile.mkdtemp(prefix='vf-c04-replay-')
 	try:
-		if case.get('kind') == 'cli':
+		if case.get('kind') == 'cli-orders':
+			cli_target_orders(acc, ctx.rng('cli-orders'), workdir)
+		elif case.get('kind') == 'cli':
 			cli_determinism(acc, ctx.rng('cli', 0), workdir, ctx.seed)
 		else:
 			run_history(acc, ctx.rng('history', case.get('seed', 0)), workdir, case.get('seed', 0), 60)
